@@ -11,6 +11,7 @@ CONSTANTS
   Subs = {"s1", "s2"}
   NVmax = 4
   QCap = 2
+  MaxBatch = 3
   MaxCopies = 3
   Verdicts = {"A", "R", "I", "U"}
   CfgSpace <- GenCfgs
